@@ -620,4 +620,10 @@ def run(P, R, tier):
     # a text slice handed on starts inside the reply: its offset is covered by the bytes that were tested
     from . import c05
     c05.slices(P, Remap(R, {'C05.TAB.1': 'C08.TAB.3'}))
+    # an unrecognised reply text is dropped, not booked as the service's final answer
+    from . import c02
+    c02.release_recognised(P, R, cl4, 'C08.GRD.3')
+    # the announced address is parsed by the daemon's own parser: every subscript and shift in it is in range
+    from . import c13
+    c13.numeric_rules(P, R, c13.scope(P), prefix='C08')
     return EXPLANATION, ASSUMPTIONS
